@@ -362,10 +362,14 @@ class TCPPacketGenerator(Device, OutMixIn):
                 f"Congestion window size = {self.congestion_control.cwnd:.1f}, last ack = {ackno}."
             )
 
-            if ack.packet_id in self.timers:
-                self.timers[ack.packet_id].stop()
-                del self.timers[ack.packet_id]
-                del self.sent_packets[ack.packet_id]
+            # a cumulative ACK covers every segment below ackno (the ACKs of
+            # those segments may have been lost or overtaken): none of them,
+            # nor the segment that triggered this ACK, needs its timer or its
+            # stored copy any more
+            for pid in [p for p in self.timers if p < ackno or p == ack.packet_id]:
+                self.timers[pid].stop()
+                del self.timers[pid]
+                del self.sent_packets[pid]
 
             self.cwnd_avaialbe.put(True)
 
